@@ -286,7 +286,7 @@ def compare_model(ctx, case, res, ans):
 
 
 def run(ctx):
-    count = ctx.n(60, 1500)
+    count = ctx.n(250, 4000)
     cases = gen_cases(ctx, count)
     chunk = 400
     n_amb = 0
@@ -295,7 +295,7 @@ def run(ctx):
             ctx.notes.append("time budget reached after %d of %d cases" % (c0, len(cases)))
             break
         part = cases[c0:c0 + chunk]
-        results = stoch_gen.run_batch("props.c14", "child_case", part, kind="shim", timeout=ctx.n(25, 120))
+        results = stoch_gen.run_batch("props.c14", "child_case", part, kind="shim", timeout=ctx.n(6, 20))
         ops, idx = [], []
         for k, (case, res) in enumerate(zip(part, results)):
             if res is None:
@@ -337,12 +337,15 @@ def run(ctx):
         answers = ctx.model.run(ops)
         for k, ans in zip(idx, answers):
             compare_model(ctx, part[k], results[k], ans)
+        if sum(1 for r in results if r is not None and (r.get("hang") or "crash" in r)) >= 3:
+            ctx.notes.append("stopped after three hangs / crashes of the real engine")
+            break
     ctx.notes.append("redist_progress is stated, not a measure-theoretic proof (C14.redist_progress_partial); "
                      "distributions of the primitives are trusted")
 
 
 def replay(ctx, rec):
     case = rec.get("case", rec)
-    res = stoch_gen.run_batch("props.c14", "child_case", [case], kind="shim", timeout=30)[0]
+    res = stoch_gen.run_batch("props.c14", "child_case", [case], kind="shim", timeout=20)[0]
     fails, amb = oracle(case, res)
     return (not fails), {"case": case, "impl": res, "failures": fails, "ambiguous": amb}
